@@ -8,6 +8,7 @@ import Poulpy.Props.C03
 import Poulpy.Lemmas.GadgetCore
 import Poulpy.Lemmas.MulNorm
 import Poulpy.Lemmas.CnvModel
+import Poulpy.Lemmas.CnvAssign
 import Poulpy.Props.C02
 import Poulpy.Props.C07
 
@@ -534,6 +535,46 @@ example (β : Ks.R 1) :
       = β * (colVal 1 β [[3], [0]] + ∑ i ∈ Finset.range (min 1 1), Ks.ι 1 (([[1]] : List Poly).getD i []) * colVal 1 β (([[[1], [0]]] : List Col).getD i []))
           * constVal 1 β [2] :=
   mul_const_phase_value 1 (by decide) [[1]] [[3], [0]] [[[1], [0]]] [2] 0 2 β rfl (by decide) (by decide) (by decide) (by decide) (by decide) (by decide)
+
+/-- **`mul_const_assign_accumulator_truncates`** — `glwe_mul_const_assign`: the accumulator of `res.size = R` limbs is the first `R` limbs of the
+full constant convolution (every `R ≤ F`; `cnv_by_const_apply` computes limb `k` independently of the result size). -/
+theorem mul_const_assign_accumulator_truncates (n R F hi : Nat) (x : Col) (b : List Int) (h : R ≤ F) :
+    cnvByConstCol n R hi x b = (cnvByConstCol n F hi x b).take R :=
+  cnvByConstCol_take n R F hi x b h
+
+example : cnvByConstCol 1 2 0 [[3], [5]] [2, 1] = (cnvByConstCol 1 4 0 [[3], [5]] [2, 1]).take 2 :=
+  mul_const_assign_accumulator_truncates 1 2 4 0 _ _ (by decide)
+
+/-- **`mul_const_assign_phase_value`** — `glwe_mul_const_assign` decrypts to the product at the documented scale, accumulator level: the
+`R = res.size`-limb accumulator's phase, rescaled by `β^{F−R}` (`F = sa + sb − hi`), plus the explicit dropped bottom limbs `R ≤ k < F` of the full
+convolution and `β^F` times the skipped top limbs, is `β · val(phase a) · val(b)`. -/
+theorem mul_const_assign_phase_value (N : Nat) (hN : 0 < N) (sk : List Poly) (a0 : Col) (as : List Col) (b : List Int) (hi sa R : Nat)
+    (β : Ks.R N)
+    (h0 : a0.length = sa) (hall : ∀ x ∈ as, x.length = sa) (hx0 : ∀ l ∈ a0, l.length = N) (hxs : ∀ x ∈ as, ∀ l ∈ x, l.length = N)
+    (hsa : 1 ≤ sa) (hsb : 1 ≤ b.length) (hhi : hi ≤ sa + b.length - 1) (hR : R ≤ sa + b.length - hi) :
+    β ^ (sa + b.length - hi - R) * ∑ k ∈ Finset.range R,
+        Ks.ι N (Ks.phaseRow sk (((a0 :: as).map (fun x => cnvByConstCol N R hi x b)).map (fun col => limbOr0 N col k))) * β ^ (R - 1 - k)
+      + ∑ k ∈ Finset.Ico R (sa + b.length - hi),
+        Ks.ι N (Ks.phaseRow sk (((a0 :: as).map (fun x => cnvByConstCol N (sa + b.length - hi) hi x b)).map (fun col => limbOr0 N col k)))
+          * β ^ (sa + b.length - hi - 1 - k)
+      + β ^ (sa + b.length - hi) * (constTop N β a0 b hi
+          + ∑ i ∈ Finset.range (min sk.length as.length), Ks.ι N (sk.getD i []) * constTop N β (as.getD i []) b hi)
+      = β * (colVal N β a0 + ∑ i ∈ Finset.range (min sk.length as.length), Ks.ι N (sk.getD i []) * colVal N β (as.getD i [])) * constVal N β b :=
+  mulConstAssign_phase_value N hN sk a0 as b hi sa R β h0 hall hx0 hxs hsa hsb hhi hR
+
+example (β : Ks.R 1) :
+    β ^ (2 + 1 - 0 - 2) * ∑ k ∈ Finset.range 2,
+        Ks.ι 1 (Ks.phaseRow [[1]] (((([[3], [0]] : Col) :: [[[1], [0]]]).map (fun x => cnvByConstCol 1 2 0 x [2])).map
+          (fun col => limbOr0 1 col k))) * β ^ (2 - 1 - k)
+      + ∑ k ∈ Finset.Ico 2 (2 + 1 - 0),
+        Ks.ι 1 (Ks.phaseRow [[1]] (((([[3], [0]] : Col) :: [[[1], [0]]]).map (fun x => cnvByConstCol 1 (2 + 1 - 0) 0 x [2])).map
+          (fun col => limbOr0 1 col k))) * β ^ (2 + 1 - 0 - 1 - k)
+      + β ^ (2 + 1 - 0) * (constTop 1 β [[3], [0]] [2] 0
+          + ∑ i ∈ Finset.range (min 1 1), Ks.ι 1 (([[1]] : List Poly).getD i []) * constTop 1 β (([[[1], [0]]] : List Col).getD i []) [2] 0)
+      = β * (colVal 1 β [[3], [0]] + ∑ i ∈ Finset.range (min 1 1), Ks.ι 1 (([[1]] : List Poly).getD i []) * colVal 1 β (([[[1], [0]]] : List Col).getD i []))
+          * constVal 1 β [2] :=
+  mul_const_assign_phase_value 1 (by decide) [[1]] [[3], [0]] [[[1], [0]]] [2] 0 2 2 β rfl (by decide) (by decide) (by decide) (by decide) (by decide)
+    (by decide) (by decide)
 
 /-- **`mul_plain_phase_value`** — `glwe_mul_plain` decrypts to the product at the documented scale, accumulator level: for the masked operands
 `a'` (`cnv_prepare_left`) and `pt'` (`cnv_prepare_right`), the phase of the `sa + sb − hi` limbs of `cnv_apply_dft(hi, a'_i, pt')`, plus
